@@ -105,7 +105,7 @@ def run(ctx):
             for query in ['n1', 'n2', 'd', 'zz']:
                 for roles in ([], ['r']):
                     dr = rng.random() < 0.25
-                    via = rng.choice(['rules_obj', 'rules_obj', 'own_default', 'no_default', 'loaded', 'dict', 'ctor', 'ctor_own_default'])
+                    via = rng.choice(['rules_obj', 'rules_obj', 'own_default', 'no_default', 'loaded', 'dict', 'ctor', 'ctor_own_default', 'main_file', 'dir_only'])
                     set_debug(rng.random() < 0.25)
                     cases.append(ec.enforce_case(rules, {'by': 'name', 'name': query, 'doraise': dr}, {}, {'roles': roles},
                                                  dflt=dflt, want='c03', via=via))
